@@ -30,11 +30,14 @@ INP = "fuel_tx::transaction::types::input::Input::"
 
 
 def hasher_inputs(f):
-    """ordered [(bb, desc-of-data)] of Hasher::input calls; requires a straight-line chain."""
+    """ordered [(bb, hasher, desc-of-data, line)] of the data fed to a Hasher: `h.input(x)` (in place) or `h.chain(x)`
+    (builder) — both are Digest::update; ordered by dominance."""
     out = []
     for i, c, args, dest, tgt, line in calls(f):
-        if callee_matches(c, r"^fuel_crypto::hasher::Hasher::input$"):
-            out.append((i, describe(f, args[0]), describe(f, args[1], depth=12), line))
+        if callee_matches(c, r"^fuel_crypto::hasher::Hasher::(input|chain)$"):
+            out.append((i, describe(f, args[0], depth=30), describe(f, args[1], depth=12), line))
+    dom = CFG(f).dominators()
+    out.sort(key=lambda x: len(dom.get(x[0], ())))
     return out
 
 
@@ -52,7 +55,7 @@ def run(F, rep, tier, allfacts):
     fty = h["variants"][0]["fields"][0][1]
     rep.check("sha2::core_api::Sha256VarCore" in fty and "OidSha256" in fty, "FORM-contract-id", "Hasher-wraps-Sha256", "%s:%s" % (h["file"], h["line"]),
               "fuel_crypto::Hasher must wrap sha2::Sha256; field type is %s" % fty[:120])
-    for m, want in (("input", r"digest::Digest>::update$"), ("digest", r"digest::Digest>::finalize$")):
+    for m, want in (("input", r"digest::Digest>::update$"), ("chain", r"digest::(Digest>::chain_update|Update::chain)$"), ("digest", r"digest::Digest>::finalize$"), ("finalize", r"digest::Digest>::finalize$")):
         n, f = F.find(r"^fuel_crypto::hasher::Hasher::%s$" % m, ["fuel_crypto"], one=True)
         rep.saw(n)
         cs = [callee_name(c) for i, c, *_ in calls(f) if not callee_matches(c, r"(Clone>::clone|From<.*>::from|Into<U>>::into)$")]
@@ -62,14 +65,17 @@ def run(F, rep, tier, allfacts):
     def chain_ok(f, want):
         ins = hasher_inputs(f)
         cfg = CFG(f)
-        ok = [d for _, _, d, _ in ins] == want and len({h for _, h, _, _ in ins}) == 1
+        # one hasher: every input() is on the same place; every chain() continues the previous chain()/default()
+        same = len({h for _, h, _, _ in ins if "chain(" not in h and "default(" not in h}) <= 1 and all(("default(" in h) for _, h, _, _ in ins if "chain(" in h or h.startswith("call:default"))
+        ok = [d for _, _, d, _ in ins] == want and same
         ok = ok and all(cfg.dominates(ins[k][0], ins[k + 1][0]) and ins[k + 1][0] not in cfg.reachable_from(ins[k + 1][0]) for k in range(len(ins) - 1))
-        dg = [(i, describe(f, args[0])) for i, c, args, *_ in calls(f) if callee_matches(c, r"^fuel_crypto::hasher::Hasher::digest$")]
+        dg = [(i, describe(f, args[0], depth=30)) for i, c, args, *_ in calls(f) if callee_matches(c, r"^fuel_crypto::hasher::Hasher::(digest|finalize)$")]
         df = call_blocks(f, r"^<fuel_crypto::hasher::Hasher as std::default::Default>::default$")
-        ok = ok and len(dg) == 1 and len(df) == 1 and ins and dg[0][1] == ins[0][1] and cfg.dominates(ins[-1][0], dg[0][0]) and cfg.dominates(df[0], ins[0][0])
+        ok = ok and len(dg) == 1 and len(df) == 1 and bool(ins) and cfg.dominates(ins[-1][0], dg[0][0]) and cfg.dominates(df[0], ins[0][0])
         # returned value derives from the digest
-        rets = [describe(f, args[0], depth=12) for i, c, args, dest, *_ in calls(f) if dest == [0]]
-        ok = ok and len(rets) == 1 and re.match(r"^(call:deref\()?call:digest\(call:default\(\)\)\)?$", rets[0]) is not None
+        rets = [describe(f, args[0], depth=30) for i, c, args, dest, *_ in calls(f) if dest == [0]]
+        rets += [describe(f, rv[1], depth=30) for i, j, p, rv, line in assignments(f) if p == [0] and rv[0] == "use"]
+        ok = ok and len(rets) == 1 and re.search(r"call:(digest|finalize)\(", rets[0]) is not None and "default(" in rets[0]
         return ok, [d for _, _, d, _ in ins], rets
 
     SEED = "const:fuel_types::array_types::ContractId::SEED"
@@ -105,40 +111,60 @@ def run(F, rep, tier, allfacts):
     rt = [(i, dest) for i, c, args, dest, *_ in calls(f) if callee_matches(c, r"^fuel_merkle::binary::root_calculator::MerkleRootCalculator::root$")]
     cfg = CFG(f)
     rets = [describe(f, args[0], depth=12) for i, c, args, dest, *_ in calls(f) if dest == [0]]
-    rep.check(len(new) == 1 and len(fe) == 1 and len(rt) == 1 and cfg.dominates(new[0], fe[0]) and cfg.dominates(fe[0], rt[0][0]) and
+    # every chunk is visited: `chunks(..).for_each(|leaf| ..)` or `for leaf in chunks(..) {..}` (pushes on a cycle headed by next())
+    loop_push = [i for i, c, *_ in calls(f) if callee_matches(c, r"MerkleRootCalculator::push$") and i in cfg.reachable_from(i)]
+    heads = [i for i, c, args, *_ in calls(f) if callee_matches(c, r"Iterator>?::next$") and "chunks(" in describe(f, args[0], depth=14)]
+    visit = fe[:1] if len(fe) == 1 else (heads[:1] if (loop_push and len(heads) == 1) else [])
+    rep.check(len(new) == 1 and len(visit) == 1 and len(rt) == 1 and cfg.dominates(new[0], visit[0]) and cfg.dominates(visit[0], rt[0][0]) and
               len(rets) == 1 and rets[0].startswith("call:root("), "TAB-code-root", "new->for_each->root", where,
               "root_from_code must build one binary Merkle calculator, push every chunk, and return its root; returns %s" % rets)
-    n, f = F.find(r"^" + re.escape(C) + r"root_from_code::\{closure#0\}$", ["fuel_tx"], one=True)
+    cl0 = F.find(r"^" + re.escape(C) + r"root_from_code::\{closure#0\}$", ["fuel_tx"], required=False)
+    if cl0 and fe:
+        n, f = cl0[0]
+        LEAF = r"arg:\w+"                       # the closure's parameter
+    else:
+        LEAF = r"call:next\([^@]*call:chunks\([^@]*\)@Some\.0"      # the loop variable
     rep.saw(n)
     cfg = CFG(f)
     where = "%s:%s" % (f["file"], f["line"])
-    pushes = [(i, describe(f, args[1], depth=20)) for i, c, args, *_ in calls(f) if callee_matches(c, r"MerkleRootCalculator::push$")]
-    verb = [p for p in pushes if p[1] == "arg:leaf"]
-    padd = [p for p in pushes if p[1] != "arg:leaf"]
+    pushes = [(i, describe(f, args[1], depth=24)) for i, c, args, *_ in calls(f) if callee_matches(c, r"MerkleRootCalculator::push$")]
+    verb = [p for p in pushes if re.match("^" + LEAF + "$", p[1])]
+    padd = [p for p in pushes if not re.match("^" + LEAF + "$", p[1])]
     ok = len(verb) <= 1 and len(padd) == 1
-    gl = [g for g in guards(f) if g["op"] == "Eq"]
-    g_full = [g for g in gl if sorted([g["a_desc"], g["b_desc"]]) == sorted(["call:len(arg:leaf)", "const:fuel_tx::contract::LEAF_SIZE"])]
-    g_mult = [g for g in gl if sorted([g["a_desc"], g["b_desc"]]) == sorted(["Rem(call:len(arg:leaf),const:fuel_tx::contract::MULTIPLE)", "const:0"])]
-    detail = "guards %s pushes %s" % ([(g["op"], g["a_desc"], g["b_desc"]) for g in gl], pushes)
+    gl = [g for g in guards(f) if g["op"] in ("Eq", "Ne")]
+
+    def sides(g):
+        return sorted([describe(f, g["a"], depth=24), describe(f, g["b"], depth=24)])
+
+    def is_full(g):
+        x = sides(g)
+        return any(re.match(r"^call:len\(" + LEAF + r"\)$", d) for d in x) and "const:fuel_tx::contract::LEAF_SIZE" in x
+
+    def is_mult(g):
+        x = sides(g)
+        return any(re.match(r"^Rem\(call:len\(" + LEAF + r"\),const:fuel_tx::contract::MULTIPLE\)$", d) for d in x) and "const:0" in x
+    G = [g for g in gl if is_full(g) or is_mult(g)]
+    detail = "guards %s pushes %s" % ([(g["op"], sides(g)) for g in gl], pushes)
     if ok:
-        # the unpadded push may only be reached through the true edge of `len == LEAF_SIZE` or `len % MULTIPLE == 0`
+        # the unpadded push may only be reached through the *equal* edge of `len == LEAF_SIZE` or `len % MULTIPLE == 0`
         # (both imply the chunk already is a multiple of 8); every other chunk must take the padding path.
-        G = g_full + g_mult
+        eq_side = [(g["t"] if g["op"] == "Eq" else g["f"]) for g in G]
         pb = padd[0][0]
-        neither = cfg._reach_from([0], avoid={g["t"] for g in G})
+        neither = cfg._reach_from([0], avoid=set(eq_side))
         ok = pb in neither and all(g["t"] != g["f"] for g in G)
         if verb:
             ok = ok and bool(G) and verb[0][0] not in neither
     rep.check(ok, "TAB-code-root", "verbatim-only-if-full-or-multiple-of-8", where,
               "a chunk may be pushed unpadded only when len == LEAF_SIZE or len %% MULTIPLE == 0, all others through the padding path; %s" % detail)
     if padd:
-        want = r"^call:index\(rep,agg:RangeTo::RangeTo\(call:next_multiple_of\(call:len\(arg:leaf\),const:fuel_tx::contract::MULTIPLE\)\)\)$"
+        want = r"^call:index\(rep,agg:RangeTo::RangeTo\(call:next_multiple_of\(call:len\(" + LEAF + r"\),const:fuel_tx::contract::MULTIPLE\)\)\)$"
         rep.check(re.match(want, padd[0][1]) is not None, "TAB-code-root", "padded-leaf-length=next_multiple_of(len,8)", where, "padded push operand: %s" % padd[0][1])
     rp = [(rv[1], rv[2]) for i, j, p, rv, line in assignments(f) if rv[0] == "rep"]
     rep.check(len(rp) == 1 and describe(f, rp[0][0]) == "const:fuel_tx::contract::PADDING_BYTE", "TAB-code-root", "padding-is-PADDING_BYTE", where,
               "padded leaf must be initialised with PADDING_BYTE; repeat rvalues %s" % [(describe(f, a), b) for a, b in rp])
-    cp = [(describe(f, args[0], depth=20), describe(f, args[1])) for i, c, args, *_ in calls(f) if callee_matches(c, r"clone_from_slice$|copy_from_slice$")]
-    rep.check(len(cp) == 1 and re.match(r"^call:index_mut\(rep,agg:Range::Range\(const:0,call:len\(arg:leaf\)\)\)$", cp[0][0]) is not None and cp[0][1] == "arg:leaf",
+    cp = [(describe(f, args[0], depth=24), describe(f, args[1], depth=24)) for i, c, args, *_ in calls(f) if callee_matches(c, r"clone_from_slice$|copy_from_slice$")]
+    rep.check(len(cp) == 1 and re.match(r"^call:index_mut\(rep,agg:(Range::Range\(const:0,|RangeTo::RangeTo\()call:len\(" + LEAF + r"\)\)\)$", cp[0][0]) is not None and
+              re.match("^" + LEAF + "$", cp[0][1]) is not None,
               "TAB-code-root", "chunk-copied-to-[0..len]", where, "copy into padded leaf: %s" % cp)
     if padd and cp:
         cb = call_blocks(f, r"clone_from_slice$|copy_from_slice$")
@@ -215,8 +241,12 @@ def run(F, rep, tier, allfacts):
     sc = [[describe(f, a, depth=24) for a in args] for i, c, args, *_ in calls(f) if callee_matches(c, r"^" + re.escape(C) + "initial_state_root$")]
     idn = [[describe_nf(F, f, a, depth=30) for a in args] for i, c, args, *_ in calls(f) if callee_matches(c, r"^" + re.escape(C) + "id$")]
     META = r"call:as_ref\(call:metadata\(arg:create\)\)@Some\.0\.body\."
-    ROOT = r"alt\(%scontract_root\|call:root_from_code\(call:branch\(call:bytecode\(arg:create\)\)\)\)" % META
-    STATE = r"alt\(%sstate_root\|call:initial_state_root\(call:iter\(call:deref\(call:storage_slots\(arg:create\)\)\)\)\)" % META
+    RFC = r"call:root_from_code\(call:branch\(call:bytecode\(arg:create\)\)\)"
+    ISR = r"call:initial_state_root\(call:iter\(call:deref\(call:storage_slots\(arg:create\)\)\)\)"
+    # either `let root = if let Some(m) = metadata { m.body.contract_root } else { root_from_code(..) }` or recomputed only
+    # in the arm that has no metadata
+    ROOT = r"(?:alt\(%scontract_root\|%s\)|%s)" % (META, RFC, RFC)
+    STATE = r"(?:alt\(%sstate_root\|%s\)|%s)" % (META, ISR, ISR)
     # name-free: the 2nd / 3rd argument of Contract::id is a variable defined as {metadata.contract_root | root_from_code(bytecode)} /
     # {metadata.state_root | initial_state_root(storage_slots)} of the same `create`
     rep.check(rc == [["call:branch(call:bytecode(arg:create))"]] and sc == [["call:iter(call:deref(call:storage_slots(arg:create)))"]] and len(idn) == 1 and idn[0][0] == "call:salt(arg:create)" and
